@@ -137,7 +137,9 @@ def coq_failures():
 
 
 def main():
+    global run3
     ck = Check('C03')
+    run3 = tbcommon.retrying(ck)          # a timed-out run is re-run once before it counts
     ck.cov['trusted_base'] = ['Coq 8.16.1 kernel + VM (vm_compute)', 'Isa.v as a reading of hexb.pdf (spec)',
                               'Verilator 5.006 front end incl. --flatten (shared by translator and oracle)',
                               'tools/vl2coq.py (XML -> vexp) and RtlSem.v (state <-> environment, wires, clocked write), validated on every run against the Verilated hex top',
@@ -204,6 +206,9 @@ def main():
         R = [l[2:] for l in open(os.path.join(d, 'real.txt')).read().split('\n') if l.startswith('R ')]
         M = [l[2:] for l in open(os.path.join(d, 'model.txt')).read().split('\n') if l.startswith('R ')]
         I = [l[2:] for l in open(os.path.join(d, 'isa.txt')).read().split('\n') if l.startswith('I ')]
+        if rc1 == 124:
+            ck.broken.append('the Verilated hex top did not finish the planted states within the time limit (machine loaded?): inconclusive')
+            ck.finish()
         if rc1 != 0 or len(R) != len(cases):
             ck.violation('the Verilated hex top stopped on a planted state (rc=%d, %d/%d results)' % (rc1, len(R), len(cases)),
                          {'case': cases[len(R)] if len(R) < len(cases) else None, 'log': o1[-300:]}, tags={'kind': 'crash'})
@@ -276,8 +281,11 @@ def main():
             rp = json.load(open(ck.replay_arg))
             bins = [(rp['binary'], bytes(rp.get('input', [])))]
         else:
-            xcmp, _ = vlib.repo_tool('xcmp')
-            hexasm, _ = vlib.repo_tool('hexasm')
+            xcmp, lx = vlib.repo_tool('xcmp')
+            hexasm, la = vlib.repo_tool('hexasm')
+            if xcmp is None or hexasm is None:
+                ck.broken.append('the toolchain does not build from the working tree (whole runs of toolchain binaries would silently shrink to random images): %s'
+                                 % (lx if xcmp is None else la)[-300:])
             inputs = [b'', b'hello world\n', bytes(range(256))]
             for src in sorted(glob.glob(os.path.join(vlib.REPO, 'tests', 'x', '*.x'))):
                 if xcmp:
@@ -334,6 +342,8 @@ def main():
             runs += 1
             total_clocks += steps
             ck.cov['evaluations'] += 1
+            if rc2 == 124:
+                continue          # timed out twice: already recorded by the runner as a run that does not terminate
             if rc2 != 0 or not rtl[-1].startswith('END'):
                 ck.violation('the Verilated hex top failed on a whole run rc=%d' % rc2, {'binary': os.path.basename(b), 'stderr': e2.decode()[-300:]}, tags={'kind': 'run-crash'})
                 continue
@@ -368,11 +378,14 @@ def main():
                 ck.violation('a whole run on the Verilog design leaves the ISA trace: ISA [%s] RTL [%s]' % first,
                              {'binary': kb, 'input': list(inp), 'isa': first[0], 'rtl': first[1], 'isa_end': isa[-1], 'rtl_end': rtl[-1],
                               'replay_cmd': './check C03 --replay <this file>'}, tags={'kind': 'run'})
+        ntool = len([1 for b_, _ in bins if 'rand' not in os.path.basename(b_)])
+        if not ck.replay_arg and (ntool < 30 or runs < 60):
+            ck.broken.append('only %d runs of toolchain binaries (%d whole runs in all; expected at least 30 / 60): the check would pass without having looked' % (ntool, runs))
         ck.log('whole runs: %d (%d clocks, ISA endings %s), differing %d' % (runs, total_clocks, run_classes, rundiff))
     # ---- the known-finding shape inside the literal quantifier (judged, reported through known_findings.json):
     # a READ system call whose result slot mem[sp+1] is the word that holds its own OPR SVC.  The testbench's shim
     # writes the byte before the clock edge that retires the SVC, so the RTL retires the overwritten byte, the ISA the SVC
-    # (hypothesis read_safe of C03_clock_refines_isa / C03_run_refines_isa).
+    # (hypothesis read_safe of C03_clock_refines_isa_partial / C03_run_refines_isa_partial).
     shapes_run = 0
     exhibits = []
     if not ck.replay_arg or json.load(open(ck.replay_arg)).get('shape'):
@@ -402,6 +415,8 @@ def main():
                              tags={'kind': 'read-overwrites-own-svc'})
     ck.cov['known_finding_shapes_run'] = shapes_run
     ck.cov['known_finding_exhibits'] = exhibits
+    if not ck.replay_arg and dist['judged'] < (20000 if not ck.thorough() else 500000):
+        ck.broken.append('only %d planted states were judged: the check would pass without having looked' % dist['judged'])
     ck.cov['distinct_nontrivial'] = len(distinct)
     ck.cov['rule'] = ('planted state = (pc, areg, breg, oreg, memory cells) for each of the 256 instruction bytes, one clock; judged iff Isa.step is defined, '
                       'oreg mod 16 = 0 and the produced byte addresses are < 800000; non-trivial = judged; distinct by (byte, ISA successor registers, written word, event class); '
